@@ -208,6 +208,15 @@ def gen_namespace(rng, nsname, thorough, deps, want_blocks=True, main=True, gobj
             if rng.random() < 0.2:
                 tl += ['', 'Deprecated: %s: Use something else' % rng.choice(since)]
             block(tl, f_typedefs)
+            if rng.random() < 0.35:
+                # a SECTION named after the type (lower-cased C name) documents the same node as the
+                # type's own block: both set description, position, version and attributes, and which
+                # one prevails must not depend on which arrived first (round 13)
+                block(['SECTION:%s' % (P + r).lower(), '@short_description: about %s%s' % (P, r),
+                       '@title: %s%s' % (P, r), '', 'What the section says about %s.' % r] +
+                      (['', 'Since: %s' % rng.choice(since)] if rng.random() < 0.6 else []) +
+                      (['', 'Stability: %s' % rng.choice(['Stable', 'Unstable'])] if rng.random() < 0.4 else []),
+                      rng.choice(apis))
         for fb in field_blocks:
             block(fb, f_typedefs)
 
